@@ -62,6 +62,12 @@ func init() {
 			}},
 		Rule{ID: "C03.f", Explain: "every proof of a distributed session carries its own keyshare server's part: BuildDistributedProofList merges proof i with proofPs[i] (the obligations of C14.f, same rule) - merging another server's ProofP makes honest lists with two keyshare servers disagree on the secret-key response.",
 			Run: func(P *Program, R *Report) { sharedRule(P, R, "C14", "C14.f", "C03.f", nil) }},
+		Rule{ID: "C03.g", Explain: "the linked proofs answer one challenge, compared exactly: every Proof implementation compares its own C with the challenge it is given as integers (the obligations of C02.d, same rule) - a comparison of truncated encodings lets two proofs of one list answer challenges that differ by a multiple of 2^256, and with them responses for different secrets coincide.",
+			Run: func(P *Program, R *Report) { sharedRule(P, R, "C02", "C02.d", "C03.g", nil) }},
+		Rule{ID: "C03.h", Explain: "the secret-key response is bounded by the verifying key's own limit: every hidden response, the one for base 0 included, is tested against 2^(LmCommit+1) of that key (the obligations of C01.c on AResponses, same rule) - with a wider bound for base 0 a credential mauled to A*R_0^-1 links to a commitment to another secret.",
+			Run: func(P *Program, R *Report) {
+				sharedRule(P, R, "C01", "C01.c", "C03.h", func(c string) bool { return strings.Contains(c, "AResponses") })
+			}},
 	)
 }
 
